@@ -5,7 +5,7 @@ from . import common
 import extract_ops, dump_tables
 
 PID = 'C12'
-TARGETS = ['KyupyVerif.Props.C12']
+TARGETS = ['KyupyVerif.Props.C12', 'KyupyVerif.Props.C12Algebra']
 RULE = ('oracle cases: (a) every operator (array _mv_*/public mv_*, bit-parallel bp8v_*/bp4v_*) on its complete operand '
         'domain for k=1..4 against the Lean spec table; (b) random array shapes 0-d..4-d with broadcasting, with and '
         'without out=; (c) random bit-parallel shapes and lane counts. distinct = distinct (operator, k, shape, out-mode) '
@@ -13,7 +13,8 @@ RULE = ('oracle cases: (a) every operator (array _mv_*/public mv_*, bit-parallel
 
 
 def theorems():
-    return common.theorems_of('KyupyVerif/Props/C12.lean', 'KV.C12')
+    return (common.theorems_of('KyupyVerif/Props/C12.lean', 'KV.C12')
+            + common.theorems_of('KyupyVerif/Props/C12Algebra.lean', 'KV.C12'))
 
 
 _spec_cache = {}
